@@ -116,9 +116,23 @@ def c01(run):
     return run.finish(rule=RT_RULE, extra_assumptions=RT_ASSUME)
 
 
+def cap_cfg(maxlen, dev=(), emit=True):
+    return ("SPECIFICATION Spec\nCONSTANTS\n MaxLen = %d\n EmitCases = %s\n Dev = %s\nINVARIANT EngineSound\nCONSTRAINT EmitCase\nCHECK_DEADLOCK FALSE\n"
+            % (maxlen, "TRUE" if emit else "FALSE", vlib.tla_set(dev)))
+
+
+def cap_family(run, maxlen, max_cases):
+    """character-level captures: TLC computes all valid splits of every (segment, string); the backtracking-engine model must be sound"""
+    run.tlc("Capture", cap_cfg(3, dev=["SHIFT"], emit=False), name="CAP_neg", expect_violation="EngineSound")
+    r = run.model_check("Capture", cap_cfg(maxlen), name="CAP_gen", want_cases=True, heap="16g")
+    cf = vlib.subsample(r["cases_file"], max_cases, run.seed, run)
+    return run.conformance("cap_chars", "tree", cf, "RouteTreeTrace", RT_TRACE_CFG)
+
+
 def c02(run):
     quick = run.tier == "quick"
     run.build_harness()
+    cap_family(run, 5 if quick else 6, 8000 if quick else 200000)
     rt_family(run, "prio_2x2", "prio", 2 if quick else 2, 2, sample=4)
     rt_random(run, "rand_params", "prio", 600 if quick else 40000)
     rt_random(run, "rand_hostile", "hostile", 200 if quick else 10000)
